@@ -176,13 +176,67 @@ def simpleOps : List (List Char × Tk) :=
 def matchSimple (s : List Char) : Option (List Char × Tk) :=
   simpleOps.find? (fun p => Str.startsWith s p.1)
 
+/-- punctuation and operators: `%…%` names, comments, SHORT_OP, POWER, DOT, the one/two-character operators -/
+def lexPunct (st : LexSt) (c : Char) (cs : List Char) : LexRes :=
+  if c = '%' then
+    match pctBody cs with
+    | some (b, rest) => mk (lookupReserved ('%' :: b ++ ['%'])) ('%' :: b ++ ['%']) st (b.length + 2) 0 rest
+    | none => .err (.illegal c st.pos)
+  else if c = '#' then
+    .skip { st with pos := st.pos + 1 + (cs.length - (dropLine cs).length) } (dropLine cs)
+  else if (c = '+' ∨ c = '-' ∨ c = '*' ∨ c = '/') ∧ cs.head? = some '=' then
+    mk .SHORT_OP [c, '='] st 2 0 cs.tail
+  else if c = '*' ∧ cs.head? = some '*' then mk .POWER ['*', '*'] st 2 0 cs.tail
+  else if c = '.' then mk .DOT ['.'] st 1 0 cs
+  else match matchSimple (c :: cs) with
+    | some (lit, ty) => mk ty lit st lit.length 0 ((c :: cs).drop lit.length)
+    | none => .err (.illegal c st.pos)
+
+/-- `t_NUMBER`  \d+(\.\d+)? -/
+def lexNumber (st : LexSt) (c : Char) (cs : List Char) : LexRes :=
+  match spanClass isDigitCC (c :: cs) with
+  | none => .err (.unmodelled c)
+  | some (ip, rest) =>
+    match rest with
+    | '.' :: d :: r2 =>
+      (match classify d with
+       | .unknown => .err (.unmodelled d)
+       | .digit =>
+         (match spanClass isDigitCC (d :: r2) with
+          | none => .err (.unmodelled d)
+          | some (fp, rest2) => mk .NUMBER (ip ++ '.' :: fp) st (ip.length + 1 + fp.length) 0 rest2)
+       | _ => mk .NUMBER ip st ip.length 0 rest)
+    | _ => mk .NUMBER ip st ip.length 0 rest
+
+/-- strings, numbers, names, then punctuation (rule order STRING, NUMBER, NAME, COMMENT, …) -/
+def lexWord (st : LexSt) (c : Char) (cs : List Char) : LexRes :=
+  match matchString (c :: cs) with
+  | some (v, n, rest) => mk .STRING v st n 0 rest
+  | none =>
+    match classify c with
+    | .unknown => .err (.unmodelled c)
+    | .digit => lexNumber st c cs
+    | .letter =>
+      (match spanClass isWordCC (c :: cs) with
+       | none => .err (.unmodelled c)
+       | some (w, rest) => mk (lookupReserved w) w st w.length 0 rest)
+    | .other => lexPunct st c cs
+
+/-- the six bracket rules (they move `paren_count`) -/
+def lexBracket (st : LexSt) (c : Char) (cs : List Char) : LexRes :=
+  if c = '(' then mk .LPAREN ['('] st 1 1 cs
+  else if c = ')' then mk .RPAREN [')'] st 1 (-1) cs
+  else if c = '[' then mk .LBRACKET ['['] st 1 1 cs
+  else if c = ']' then mk .RBRACKET [']'] st 1 (-1) cs
+  else if c = '{' then mk .LBRACE ['{'] st 1 1 cs
+  else if c = '}' then mk .RBRACE ['}'] st 1 (-1) cs
+  else lexWord st c cs
+
 /-- One step of `lexer.token()`: skip ignored characters one at a time, or produce one token. -/
 def lexStep (st : LexSt) : List Char → LexRes
   | [] => .eof
   | c :: cs =>
-    -- t_ignore
     if c = ' ' ∨ c = '\t' then .skip { st with pos := st.pos + 1 } cs
-    -- t_NEWLINE  \r\n | \n | ;
     else if c = '\r' ∧ cs.head? = some '\n' then
       if st.depth = 0 then mkNL ['\r', '\n'] st 2 cs.tail
       else .skip { st with pos := st.pos + 2, line := st.line + 1 } cs.tail
@@ -190,57 +244,7 @@ def lexStep (st : LexSt) : List Char → LexRes
       if st.depth = 0 then mkNL ['\n'] st 1 cs
       else .skip { st with pos := st.pos + 1, line := st.line + 1 } cs
     else if c = ';' then mk .NEWLINE [';'] st 1 0 cs
-    -- brackets
-    else if c = '(' then mk .LPAREN ['('] st 1 1 cs
-    else if c = ')' then mk .RPAREN [')'] st 1 (-1) cs
-    else if c = '[' then mk .LBRACKET ['['] st 1 1 cs
-    else if c = ']' then mk .RBRACKET [']'] st 1 (-1) cs
-    else if c = '{' then mk .LBRACE ['{'] st 1 1 cs
-    else if c = '}' then mk .RBRACE ['}'] st 1 (-1) cs
-    else match matchString (c :: cs) with
-    | some (v, n, rest) => mk .STRING v st n 0 rest
-    | none =>
-    match classify c with
-    | .unknown => .err (.unmodelled c)
-    | .digit =>
-      -- t_NUMBER  \d+(\.\d+)?
-      match spanClass isDigitCC (c :: cs) with
-      | none => .err (.unmodelled c)
-      | some (ip, rest) =>
-        match rest with
-        | '.' :: d :: r2 =>
-          (match classify d with
-           | .unknown => .err (.unmodelled d)
-           | .digit =>
-             (match spanClass isDigitCC (d :: r2) with
-              | none => .err (.unmodelled d)
-              | some (fp, rest2) => mk .NUMBER (ip ++ '.' :: fp) st (ip.length + 1 + fp.length) 0 rest2)
-           | _ => mk .NUMBER ip st ip.length 0 rest)
-        | _ => mk .NUMBER ip st ip.length 0 rest
-    | .letter =>
-      -- t_NAME, second alternative  [^\W\d]\w*
-      match spanClass isWordCC (c :: cs) with
-      | none => .err (.unmodelled c)
-      | some (w, rest) => mk (lookupReserved w) w st w.length 0 rest
-    | .other =>
-      if c = '%' then
-        -- t_NAME, first alternative  %.*?%
-        match pctBody cs with
-        | some (b, rest) =>
-          let v := '%' :: b ++ ['%']
-          mk (lookupReserved v) v st (b.length + 2) 0 rest
-        | none => .err (.illegal c st.pos)
-      else if c = '#' then
-        -- t_COMMENT: no token
-        let rest := dropLine cs
-        .skip { st with pos := st.pos + 1 + (cs.length - rest.length) } rest
-      else if (c = '+' ∨ c = '-' ∨ c = '*' ∨ c = '/') ∧ cs.head? = some '=' then
-        mk .SHORT_OP [c, '='] st 2 0 cs.tail
-      else if c = '*' ∧ cs.head? = some '*' then mk .POWER ['*', '*'] st 2 0 cs.tail
-      else if c = '.' then mk .DOT ['.'] st 1 0 cs
-      else match matchSimple (c :: cs) with
-        | some (lit, ty) => mk ty lit st lit.length 0 ((c :: cs).drop lit.length)
-        | none => .err (.illegal c st.pos)
+    else lexBracket st c cs
 
 /-- All tokens of `s` starting in lexer state `st` (fuel = remaining characters + 1 per call). -/
 def lexAllAux : Nat → LexSt → List Char → List Token → Except (LexErr × List Token) (List Token × LexSt)
